@@ -1,8 +1,8 @@
 #!/bin/bash
 # Coverage-guided campaigns of the thorough tier:  fuzz_campaign.sh <ID>
 # For every line of /verif/fuzz/campaigns.txt that names <ID>: libFuzzer (-seed=VERIF_SEED+1,
-# fixed -runs per job, 8 jobs, fresh corpus seeded from /verif/fuzz/seeds) on the generic target
-# `prop` (bytes = entropy of the part's own strategy, oracle = the part's own check) or on
+# fixed -runs per job, 8 jobs, fresh corpus of 64 generated cases) on the generic target `prop`
+# (input = a case as JSON, structure-aware mutator, oracle = the part's own check) or on
 # `decoders` (C10).  A crash artifact is replayed through vcheck, which decides:
 #   exit 0 = nothing found (or only artifacts that do not reproduce outside of libFuzzer: noted),
 #   exit 1 = violation (VIOLATION line printed by vcheck).
@@ -31,23 +31,27 @@ while read -r pid part target runs; do
   work=$FUZZ/corpus-work/$ID-$part
   art=$FUZZ/artifacts/$ID-$part
   rm -rf "$work" "$art"; mkdir -p "$work" "$art"
-  # seeds: a few blobs of pseudo-random bytes of different lengths (deterministic) + committed seeds
-  python3 - "$work" "$SEED" <<'PY'
+  # seeds: generated cases of the part (deterministic in SEED) / valid payloads for the decoders
+  if [ "$target" = "decoders" ]; then
+    python3 - "$work" "$SEED" <<'PY'
 import sys,random
 d,seed=sys.argv[1],int(sys.argv[2])
 r=random.Random(seed)
-for i,n in enumerate([64,256,1024,4096]):
+for i,n in enumerate([8,64,256,1024]):
     open(f"{d}/seed-{i}","wb").write(bytes(r.getrandbits(8) for _ in range(n)))
 PY
+  else
+    /verif/target/debug/vcheck "$ID" --emit-corpus "$work" --part "$part" --count 64 --seed "$SEED" >/dev/null
+  fi
   [ -d $FUZZ/seeds/$ID-$part ] && cp $FUZZ/seeds/$ID-$part/* "$work"/ 2>/dev/null
   extra=""
-  if [ "$target" = "decoders" ]; then extra="-malloc_limit_mb=512 -rss_limit_mb=3072 -timeout=25"; else extra="-rss_limit_mb=4096 -timeout=120"; fi
+  if [ "$target" = "decoders" ]; then extra="-malloc_limit_mb=512 -rss_limit_mb=3072 -timeout=25"; maxlen=65536; else extra="-rss_limit_mb=4096 -timeout=120"; maxlen=262144; fi
   t0=$(date +%s)
-  (cd "$art" && VH_FUZZ=$ID:$part $BIN_DIR/$target -artifact_prefix="$art/" -runs=$runs -max_len=8192 -len_control=0 \
-      -seed=$SEED -jobs=$JOBS -workers=$JOBS -print_final_stats=1 $extra "$work" > "$art/driver.log" 2>&1)
+  (cd "$art" && ASAN_OPTIONS=detect_leaks=0:detect_odr_violation=0 VH_FUZZ=$ID:$part $BIN_DIR/$target -artifact_prefix="$art/" -runs=$runs -max_len=$maxlen -len_control=0 \
+      -seed=$SEED -jobs=$JOBS -workers=$JOBS -print_final_stats=1 -detect_leaks=0 $extra "$work" > "$art/driver.log" 2>&1)
   rc=$?
   t1=$(date +%s)
-  execs=$(grep -h "stat::number_of_executed_units" "$art"/fuzz-*.log 2>/dev/null | awk '{s+=$2} END{print s+0}')
+  execs=0; for l in "$art"/fuzz-*.log; do n=$(grep "stat::number_of_executed_units" "$l" 2>/dev/null | tail -1 | awk '{print $2}'); execs=$((execs + ${n:-0})); done
   corpus=$(ls "$work" | wc -l)
   crashes=$(ls "$art" | grep -c -E "^(crash|oom|timeout|leak)-")
   echo "$ID fuzz campaign $part ($target): $execs executions in $((t1-t0))s, corpus $corpus, artifacts $crashes"
